@@ -663,6 +663,7 @@ WITNESSES = {
     "F-csr-csr-unsorted": {"op": "dot", "a": spec_of(np.array([[1, 1]]), "gcxs", [0]), "b": spec_of(np.array([[3, 0, 4, 0], [0, 5, -4, 0]]), "gcxs", [0])},
     "F-matmul-1d-left": {"op": "matmul", "a": spec_of(np.array([1, 2, 3]), "coo"), "b": spec_of(np.arange(24).reshape(1, 2, 3, 4) % 5 - 2, "nd")},
     "F-matmul-empty-batch": {"op": "matmul", "a": spec_of(np.zeros((0, 2, 1), dtype=np.int64), "coo"), "b": spec_of(np.zeros((0, 1, 3), dtype=np.int64), "coo")},
+    "F-dot-1d-length-mismatch": {"op": "dot", "a": spec_of(np.array([2]), "coo"), "b": spec_of(np.array([1, 3]), "coo")},
     "F-tensordot-empty-return-type": {"op": "tensordot", "a": spec_of(np.zeros((2, 0), dtype=np.int64), "coo"), "b": spec_of(np.zeros((0, 3), dtype=np.int64), "coo"),
                                       "axes": [[1], [0]], "rt": "nd"},
 }
